@@ -126,6 +126,36 @@ theorem nondestructive_only_allocates {h h' : Heap} {op : Op} {res : Ref}
         simp [hx, hy, bind, Except.bind] at hr
         obtain ⟨ext, he⟩ := allocList_grows h (carsOf h as ++ carsOf h bs) .nil
         exact ⟨ext, by rw [← he, hr]⟩
+  | fresh1 f x =>
+    unfold run at hr
+    cases hx : chainOf h x with
+    | error e => simp [hx, bind, Except.bind] at hr
+    | ok as =>
+      simp [hx, bind, Except.bind] at hr
+      obtain ⟨ext, he⟩ := allocList_grows h (f.app (carsOf h as)) .nil
+      exact ⟨ext, by rw [← he, hr]⟩
+  | fresh2 f x y =>
+    unfold run at hr
+    cases hx : chainOf h x with
+    | error e => simp [hx, bind, Except.bind] at hr
+    | ok as =>
+      cases hy : chainOf h y with
+      | error e => simp [hx, hy, bind, Except.bind] at hr
+      | ok bs =>
+        simp [hx, hy, bind, Except.bind] at hr
+        obtain ⟨ext, he⟩ := allocList_grows h (f.app (carsOf h as) (carsOf h bs)) .nil
+        exact ⟨ext, by rw [← he, hr]⟩
+  | revappend x y =>
+    unfold run at hr
+    cases hx : chainOf h x with
+    | error e => simp [hx, bind, Except.bind] at hr
+    | ok as =>
+      cases hy : chainOf h y with
+      | error e => simp [hx, hy, bind, Except.bind] at hr
+      | ok bs =>
+        simp [hx, hy, bind, Except.bind] at hr
+        obtain ⟨ext, he⟩ := allocList_grows h (carsOf h as).reverse y
+        exact ⟨ext, by rw [← he, hr]⟩
   | rplaca x v => simp [Op.destructive] at hnd
   | setNth n x v => simp [Op.destructive] at hnd
   | rplacd x y => simp [Op.destructive] at hnd
@@ -192,6 +222,9 @@ theorem destructive_writes_within_footprint {h h' : Heap} {op : Op} {res : Ref}
   | mapcar f x => simp [Op.destructive] at hd
   | mapcar2 x y => simp [Op.destructive] at hd
   | concat x y => simp [Op.destructive] at hd
+  | fresh1 f x => simp [Op.destructive] at hd
+  | fresh2 f x y => simp [Op.destructive] at hd
+  | revappend x y => simp [Op.destructive] at hd
   | rplaca x v =>
     unfold run at hr
     cases hx : chainOf h x with
@@ -451,6 +484,9 @@ theorem extending_writes_only_nil_cdrs {h h' : Heap} {op : Op} {res : Ref}
     | mapcar f x => simp [Op.destructive] at hd
     | mapcar2 x y => simp [Op.destructive] at hd
     | concat x y => simp [Op.destructive] at hd
+    | fresh1 f x => simp [Op.destructive] at hd
+    | fresh2 f x y => simp [Op.destructive] at hd
+    | revappend x y => simp [Op.destructive] at hd
     | rplaca x v => simp [Op.extending] at hx
     | setNth n x v => simp [Op.extending] at hx
     | rplacd x y => simp [Op.extending] at hx
@@ -564,6 +600,9 @@ theorem extending_empty_changes_nothing {h h' : Heap} {op : Op} {res x : Ref}
       | mapcar f x => simp [Op.destructive] at hd
       | mapcar2 x y => simp [Op.destructive] at hd
       | concat x y => simp [Op.destructive] at hd
+      | fresh1 f x => simp [Op.destructive] at hd
+      | fresh2 f x y => simp [Op.destructive] at hd
+      | revappend x y => simp [Op.destructive] at hd
       | rplaca x v => simp [Op.extending] at hx
       | setNth n x v => simp [Op.extending] at hx
       | rplacd x y => simp [Op.extending] at hx
@@ -743,6 +782,43 @@ theorem nondestructive_refines_value {h h' : Heap} {op : Op} {res : Ref} {xs ys 
         refine ⟨(carsOf h as ++ carsOf h bs).length, xs ++ ys, rfl, ?_⟩
         have := allocList_contents_nil h (carsOf h as ++ carsOf h bs)
         rw [hr] at this; rw [hxs, hys]; exact this
+  | fresh1 f x =>
+    unfold run at hr
+    cases hcx : chainOf h x with
+    | error e => simp [hcx, bind, Except.bind] at hr
+    | ok as =>
+      simp [hcx, bind, Except.bind] at hr
+      have hxs := args_val hcx (hx x rfl)
+      refine ⟨(f.app (carsOf h as)).length, f.app xs, rfl, ?_⟩
+      have := allocList_contents_nil h (f.app (carsOf h as))
+      rw [hr] at this; rw [hxs]; exact this
+  | fresh2 f x y =>
+    unfold run at hr
+    cases hcx : chainOf h x with
+    | error e => simp [hcx, bind, Except.bind] at hr
+    | ok as =>
+      cases hcy : chainOf h y with
+      | error e => simp [hcx, hcy, bind, Except.bind] at hr
+      | ok bs =>
+        simp [hcx, hcy, bind, Except.bind] at hr
+        have hxs := args_val hcx (hx x rfl)
+        have hys := args_val hcy (hy y rfl)
+        refine ⟨(f.app (carsOf h as) (carsOf h bs)).length, f.app xs ys, rfl, ?_⟩
+        have := allocList_contents_nil h (f.app (carsOf h as) (carsOf h bs))
+        rw [hr] at this; rw [hxs, hys]; exact this
+  | revappend x y =>
+    unfold run at hr
+    cases hcx : chainOf h x with
+    | error e => simp [hcx, bind, Except.bind] at hr
+    | ok as =>
+      cases hcy : chainOf h y with
+      | error e => simp [hcx, hcy, bind, Except.bind] at hr
+      | ok bs =>
+        simp [hcx, hcy, bind, Except.bind] at hr
+        have hxs := args_val hcx (hx x rfl)
+        refine ⟨stdFuel h + (carsOf h as).reverse.length, xs.reverse ++ ys, rfl, ?_⟩
+        have := allocList_contents (hy y rfl) (carsOf h as).reverse
+        rw [hr] at this; rw [hxs]; exact this
   | rplaca x v => simp [Op.destructive] at hnd
   | setNth n x v => simp [Op.destructive] at hnd
   | rplacd x y => simp [Op.destructive] at hnd
@@ -969,6 +1045,9 @@ theorem destructive_refines_value {h h' : Heap} {op : Op} {res : Ref} {xs ys : L
   | mapcar f x => simp [Op.destructive] at hd
   | mapcar2 x y => simp [Op.destructive] at hd
   | concat x y => simp [Op.destructive] at hd
+  | fresh1 f x => simp [Op.destructive] at hd
+  | fresh2 f x y => simp [Op.destructive] at hd
+  | revappend x y => simp [Op.destructive] at hd
 
 
 /-- **(A) computes (B)**, all operations. -/
@@ -1054,10 +1133,24 @@ theorem fresh_result_independent {h h' : Heap} {op : Op} {res : Ref}
       cases hcy : chainOf h y with
       | error e => simp [hcx, hcy, bind, Except.bind] at hr
       | ok bs => simp [hcx, hcy, bind, Except.bind] at hr; exact key _ hr
+  | fresh1 f x =>
+    unfold run at hr
+    cases hcx : chainOf h x with
+    | error e => simp [hcx, bind, Except.bind] at hr
+    | ok as => simp [hcx, bind, Except.bind] at hr; exact key _ hr
+  | fresh2 f x y =>
+    unfold run at hr
+    cases hcx : chainOf h x with
+    | error e => simp [hcx, bind, Except.bind] at hr
+    | ok as =>
+      cases hcy : chainOf h y with
+      | error e => simp [hcx, hcy, bind, Except.bind] at hr
+      | ok bs => simp [hcx, hcy, bind, Except.bind] at hr; exact key _ hr
   | alias x => simp [Op.freshResult] at hf
   | cons v x => simp [Op.freshResult] at hf
   | listStar v w x => simp [Op.freshResult] at hf
   | append x y => simp [Op.freshResult] at hf
+  | revappend x y => simp [Op.freshResult] at hf
   | nthcdr n x => simp [Op.freshResult] at hf
   | last n x => simp [Op.freshResult] at hf
   | member p key x => simp [Op.freshResult] at hf
@@ -1110,6 +1203,9 @@ theorem tail_result_shares {h h' : Heap} {op : Op} {res : Ref} {x : Ref}
   | mapcar f x => simp [Op.tailResult] at ht
   | mapcar2 x y => simp [Op.tailResult] at ht
   | concat x y => simp [Op.tailResult] at ht
+  | fresh1 f x => simp [Op.tailResult] at ht
+  | fresh2 f x y => simp [Op.tailResult] at ht
+  | revappend x y => simp [Op.tailResult] at ht
   | rplaca x v => simp [Op.tailResult] at ht
   | setNth n x v => simp [Op.tailResult] at ht
   | rplacd x y => simp [Op.tailResult] at ht
@@ -1166,6 +1262,19 @@ theorem ext_result_shares_only_last_arg {h h' : Heap} {op : Op} {res y : Ref} {n
         obtain ⟨fresh, hc, hf⟩ := (cons_append_share_only_last_arg hy).2 (carsOf h as)
         rw [hr] at hc
         exact ⟨_, fresh, hc, hf⟩
+  | revappend x y' =>
+    simp [Op.listArgs] at hl; subst hl
+    unfold run at hr
+    cases hcx : chainOf h x with
+    | error e => simp [hcx, bind, Except.bind] at hr
+    | ok as =>
+      cases hcy : chainOf h y' with
+      | error e => simp [hcx, hcy, bind, Except.bind] at hr
+      | ok bs' =>
+        simp [hcx, hcy, bind, Except.bind] at hr
+        obtain ⟨fresh, hc, hf⟩ := (cons_append_share_only_last_arg hy).2 (carsOf h as).reverse
+        rw [hr] at hc
+        exact ⟨_, fresh, hc, hf⟩
   | lit vs => simp [Op.extending] at hx
   | alias x => simp [Op.extending] at hx
   | nthcdr n x => simp [Op.extending] at hx
@@ -1179,6 +1288,8 @@ theorem ext_result_shares_only_last_arg {h h' : Heap} {op : Op} {res y : Ref} {n
   | mapcar f x => simp [Op.extending] at hx
   | mapcar2 x y => simp [Op.extending] at hx
   | concat x y => simp [Op.extending] at hx
+  | fresh1 f x => simp [Op.extending] at hx
+  | fresh2 f x y => simp [Op.extending] at hx
   | rplaca x v => simp [Op.extending] at hx
   | setNth n x v => simp [Op.extending] at hx
   | rplacd x y => simp [Op.extending] at hx
@@ -1356,6 +1467,35 @@ theorem remove_default_eq_filter (p : Pred) (xs : List Val) :
       · simp [candidates, applyMask, keyApp, hp, this]
   have := key 0 xs (by omega)
   simpa [vRemove, maskOf] using this
+
+/-- `(revappend x y)` = `(append (reverse x) y)` -/
+theorem revappend_eq_append_reverse (x y : Ref) (xs ys : List Val) :
+    valueOf (.revappend x y) xs ys = valueOf (.append x y) xs.reverse ys := rfl
+
+theorem revappend_nil_eq_reverse (x y : Ref) (xs : List Val) :
+    valueOf (.revappend x y) xs [] = valueOf (.reverse x) xs [] := by simp [valueOf]
+
+/-- a copy (copy-seq, copy-tree on a flat list, `(apply #'list x)`, `(multiple-value-list (values-list x))`) has the
+    value of its argument -/
+theorem fresh_copy_value (x : Ref) (xs : List Val) : valueOf (.fresh1 .copy x) xs [] = .ok xs := rfl
+
+theorem interleave_length : ∀ (xs ys : List Val), (interleave xs ys).length = 2 * min xs.length ys.length
+  | [], _ => by simp [interleave]
+  | _ :: _, [] => by simp [interleave]
+  | x :: xs, y :: ys => by
+    simp only [interleave, List.length_cons, interleave_length xs ys]
+    omega
+
+/-- what a two-list map hands to its function at the first step is the pair of the first elements, exactly
+    when both lists are non-empty -/
+theorem firstPair_spec (xs ys : List Val) :
+    Fn2.app .firstPair xs ys = match xs.head?, ys.head? with
+      | some a, some b => [a, b]
+      | _, _ => [] := by
+  cases xs <;> cases ys <;> simp [Fn2.app]
+
+theorem takeMin_length (xs ys : List Val) : (Fn2.app .takeMin xs ys).length = min xs.length ys.length := by
+  simp [Fn2.app, List.length_take]
 
 theorem mapcar_length (f : Fn) (xs : List Val) : (vMapcar f xs).length = xs.length := by simp [vMapcar]
 
